@@ -12,6 +12,14 @@ CLAIMED = {
    technique='executable exact (dyadic) TLA+ specification Gae.tla: TLC checks reverse-scan = defining-sum for all masks; every final state replayed bit-exactly into compute_gae',
    text='TLC proves, for every termination/truncation mask pattern up to T=4 (5 thorough; sampled masks to T=12) and lattice data, that the reverse scan equals the defining GAE sum and its corollaries; all resulting (input, expected output) states are evaluated by the real compute_gae in float64 where dyadic arithmetic is exact, compared bit-for-bit, in [T,B] batches with distinct columns; gradients must vanish.',
    note='Trusted: TLC; exactness of float64 on dyadic lattice values; data lattice is -2..2 (-5..5 thorough) with lambda, discount in {0, 1/2, 1} (plus quarters thorough) - arbitrary real coefficients are covered only through polynomial dependence.'),
+ 'C18': dict(level='model_checking', design='DESIGN.md §5 C18',
+   technique='exact-rational TLA+ state machine RunningStats.tla (Welford step, sharded psum step, ghost bag) model-checked with TLC; every state replayed into update/normalize/denormalize; long integer histories validated by RunningStatsTrace.tla',
+   text='TLC checks on exact rationals that the batched Welford accumulator (and its per-device psum variant) equals the population statistics of the multiset of weighted samples seen, for every way of batching within the bounds, plus the affine lemma that licenses exact rescaling; every explored state is replayed into the real functions with batch axes, nest kind, scale/offset and weights=None varied, and random long histories are validated the other way.',
+   note='Trusted: TLC, float64 (x64) comparisons at 1e-9 relative, std compared through its square and the clip case; exhaustive bound is 2 batches of <=2 samples on {-1,0,2} x weights 0..2, deeper/wider by random picks; 2 forced host devices for the sharded path.'),
+ 'C09': dict(level='model_checking', design='DESIGN.md §5 C09',
+   technique='TLA+ specifications SpatialAlgebra.tla (integers, grid larger than polynomial degree) and SpatialRat.tla (exact rationals on unit quaternions) model-checked with TLC; every computed state replayed exactly into brax.math / brax.base',
+   text='Each law is a TLC invariant over an input grid with more points per variable than its per-variable degree (exhaustive for the quaternion and rotation families, sampled for the 19-26 variable transform/motion/force families), so holding on the grid is a polynomial identity; the real functions must return exactly the integers/rationals the specification computed for every primitive involved, which transfers the laws to the code.',
+   note='Trusted: TLC; float64 exactness on small integers; the code being polynomial of the stated degree; unit-quaternion laws at 15 rational unit quaternions x small integer data (tolerance 1e-12).'),
 }
 NA = {
  'C03': 'property is about derivatives of a floating-point program vs. a finite-difference limit: no state, history or exact-arithmetic rendering for a TLA+ specification (DESIGN.md §6)',
